@@ -134,6 +134,16 @@ func (c13Client) PublishDiagnostics(ctx context.Context, p *protocol.PublishDiag
 
 const c13Timeout = 5 * time.Second
 
+// c13Timeouts counts the waits that ended in a time-out (an expected task or publish that never
+// came).  Each costs c13Timeout of wall time; after a few of them the rest of the generated
+// schedules would only repeat the finding for hours, so the generator stops (the schedules
+// already emitted carry the "timeout" outcomes, which the model never predicts).
+var c13Timeouts int
+
+const c13MaxTimeouts = 3
+
+func c13GiveUp() bool { return c13Timeouts >= c13MaxTimeouts }
+
 type c13Run struct {
 	srv      *server.Server
 	tasks    map[int]*c13Task
@@ -176,17 +186,27 @@ func (r *c13Run) notify(kind string, u, t int) {
 	expectTask := true
 	if kind == "open" {
 		r.pairs[[2]int{u, t}] = true
-		_ = r.srv.DidOpen(ctx, &protocol.DidOpenTextDocumentParams{
-			TextDocument: protocol.TextDocumentItem{URI: c13URI(u), Text: c13Pool[t], Version: 1}})
+		if !r.call(func() {
+			_ = r.srv.DidOpen(ctx, &protocol.DidOpenTextDocumentParams{
+				TextDocument: protocol.TextDocumentItem{URI: c13URI(u), Text: c13Pool[t], Version: 1}})
+		}) {
+			r.record([]any{kind, u, t}, "timeout")
+			return
+		}
 	} else {
 		_, expectTask = r.srv.GetDocument(c13URI(u))
 		if expectTask {
 			r.pairs[[2]int{u, t}] = true
 		}
 		// a range-less change: the whole new content (C01 is about ranged edits)
-		_ = r.srv.DidChange(ctx, &protocol.DidChangeTextDocumentParams{
-			TextDocument:   protocol.VersionedTextDocumentIdentifier{TextDocumentIdentifier: protocol.TextDocumentIdentifier{URI: c13URI(u)}},
-			ContentChanges: []protocol.TextDocumentContentChangeEvent{{Text: c13Pool[t]}}})
+		if !r.call(func() {
+			_ = r.srv.DidChange(ctx, &protocol.DidChangeTextDocumentParams{
+				TextDocument:   protocol.VersionedTextDocumentIdentifier{TextDocumentIdentifier: protocol.TextDocumentIdentifier{URI: c13URI(u)}},
+				ContentChanges: []protocol.TextDocumentContentChangeEvent{{Text: c13Pool[t]}}})
+		}) {
+			r.record([]any{kind, u, t}, "timeout")
+			return
+		}
 	}
 	if !expectTask {
 		select {
@@ -204,7 +224,25 @@ func (r *c13Run) notify(kind string, u, t int) {
 		r.record([]any{kind, u, t}, v)
 	case <-time.After(c13Timeout):
 		r.dead = true
+		c13Timeouts++
 		r.record([]any{kind, u, t}, "timeout")
+	}
+}
+
+// call runs one notification handler of the real server.  The handlers are synchronous; a
+// handler that waits for something a withheld client call holds (a lock) would block the
+// harness for ever, so it is given c13Timeout and then reported as "timeout" (the model's
+// handlers never block).  The blocked call is left to finish when the run is drained.
+func (r *c13Run) call(f func()) bool {
+	done := make(chan struct{})
+	go func() { defer close(done); f() }()
+	select {
+	case <-done:
+		return true
+	case <-time.After(c13Timeout):
+		r.dead = true
+		c13Timeouts++
+		return false
 	}
 }
 
@@ -225,8 +263,13 @@ func (r *c13Run) close(u int) {
 		r.record([]any{"close", u}, "dead")
 		return
 	}
-	_ = r.srv.DidClose(context.Background(), &protocol.DidCloseTextDocumentParams{
-		TextDocument: protocol.TextDocumentIdentifier{URI: c13URI(u)}})
+	if !r.call(func() {
+		_ = r.srv.DidClose(context.Background(), &protocol.DidCloseTextDocumentParams{
+			TextDocument: protocol.TextDocumentIdentifier{URI: c13URI(u)}})
+	}) {
+		r.record([]any{"close", u}, "timeout")
+		return
+	}
 	r.record([]any{"close", u}, 0)
 }
 
@@ -260,6 +303,7 @@ func (r *c13Run) await(t *c13Task) string {
 			return "blocked"
 		}
 		r.dead = true
+		c13Timeouts++
 		return "timeout"
 	}
 }
@@ -296,6 +340,7 @@ func (r *c13Run) finish(v int) string {
 	case <-t.done:
 	case <-time.After(c13Timeout):
 		r.dead = true
+		c13Timeouts++
 		return "timeout"
 	}
 	for i, x := range r.held {
@@ -514,6 +559,9 @@ func c13Perms(n int, f func([]int)) {
 // burst: nd documents are opened, then the changes (assign[j] = document of change j) arrive, then
 // the tasks reach the publish point in the order perm (indices into the tasks in spawn order).
 func c13Burst(c *Ctx, nd int, assign []int, texts []int, perm []int) {
+	if c13GiveUp() {
+		return
+	}
 	r := newC13Run()
 	for u := 0; u < nd; u++ {
 		r.open(u, texts[u])
@@ -562,6 +610,9 @@ func c13Assignments(nd, k int, f func([]int)) {
 // everything that can happen next: the next notification, letting a pending task go (to
 // completion, or only into the client call), releasing the withheld call.
 func c13Walk(c *Ctx, notes [][3]int, try bool, choose func(n int) int) {
+	if c13GiveUp() {
+		return
+	}
 	r := newC13Run()
 	ni := 0
 	tries := 1
@@ -698,7 +749,7 @@ func genC13(c *Ctx) {
 	// change arrives, its task b is let go.  It must wait for publishMu; whatever the server does,
 	// the calls are then released newest first, which is the order that would leave stale
 	// diagnostics if b had been able to overtake.
-	for i := 0; i < c.N(40, 400); i++ {
+	for i := 0; i < c.N(40, 400) && !c13GiveUp(); i++ {
 		nd := 1 + c.R.IntN(2)
 		ts := c13Texts(c, 4)
 		r := newC13Run()
